@@ -2,7 +2,6 @@
 
 use crate::serialization::{self, JsonObject};
 use anyhow::{bail, ensure, Context as _, Result};
-use ethaddr::Address;
 use ethdigest::Digest;
 use ethnum::{serde::permissive, I256, U256};
 use serde::{
@@ -234,7 +233,7 @@ impl Types {
             }
             .to_be_bytes(),
             MemberKind::Address => {
-                let address = Address::deserialize(value)?;
+                let address = serialization::address::deserialize(value)?;
                 let mut buffer = [0_u8; 32];
                 buffer[12..].copy_from_slice(&*address);
                 buffer
